@@ -471,24 +471,37 @@ func helperImplies(g *ssa.Function, idx int, resWant, want bool, match func(cond
 			continue
 		}
 		v := ResolveCellLoad(ret.Results[idx], ret)
-		if k, isC := v.(*ssa.Const); isC && k.Value != nil {
-			if (k.Value.String() == "true") != resWant {
-				continue
-			}
-		} else if pol, ok := match(v); ok {
-			// the result is the comparison itself: result == resWant fixes the predicate
-			pred := pol
-			if !resWant {
-				pred = !pol
-			}
-			if pred == want {
-				can = true
-				continue
+		// a short-circuit result `a && b` / `a || b` is a phi of a constant and the last operand
+		vals := []ssa.Value{v}
+		anchors := []ssa.Instruction{ret}
+		if ph, isPhi := v.(*ssa.Phi); isPhi {
+			vals, anchors = nil, nil
+			for i, e := range ph.Edges {
+				pred := ph.Block().Preds[i]
+				vals = append(vals, e)
+				anchors = append(anchors, pred.Instrs[len(pred.Instrs)-1])
 			}
 		}
-		can = true
-		if len(inner) == 0 || !OnlyViaEdges(g, ret, inner) {
-			return false
+		for vi, v := range vals {
+			if k, isC := v.(*ssa.Const); isC && k.Value != nil {
+				if (k.Value.String() == "true") != resWant {
+					continue
+				}
+			} else if pol, ok := match(v); ok {
+				// the result is the comparison itself: result == resWant fixes the predicate
+				pred := pol
+				if !resWant {
+					pred = !pol
+				}
+				if pred == want {
+					can = true
+					continue
+				}
+			}
+			can = true
+			if len(inner) == 0 || !OnlyViaEdges(g, anchors[vi], inner) {
+				return false
+			}
 		}
 	}
 	return can
